@@ -164,5 +164,9 @@ def scenarios(tier):
                                         'arbitrary reals, the others fixed to +1 / -1')))
     out.append(Scenario('ucb1.B1T1d1.free.njobs2', lsh, dict(lp='ucb1', B=1, T=1, N=2, partial=1, d=1, n_jobs=2),
                         setup=dict(par_other='proc'), weight=50, shards=2))
+    # a partial_fit batch of two rows hashed by two jobs (the per-hash insert tasks must carry the history offset)
+    out.append(Scenario('ucb1.B1T1d1.free.njobs2.partial2', lsh, dict(lp='ucb1', B=1, T=1, N=1, partial=2, d=1, n_jobs=2),
+                        setup=dict(par_other='proc'), weight=80, shards=2,
+                        bounds=dict(lp='ucb1', bits=1, tables=1, rows='1 + 2 by partial_fit', n_jobs=2)))
     out.append(Scenario('twin.ucb1', lsh, dict(lp='ucb1', B=1, T=1, N=1, partial=1, d=1, twin=True), twin=True))
     return out
